@@ -71,6 +71,7 @@ type Ctx struct {
 	start     time.Time
 	CallSites int
 	cg        *cgCache
+	Renamed   []string // symbols analysed under their reference names (canon.go)
 }
 
 func goEnv() []string {
@@ -343,8 +344,16 @@ func (c *Ctx) Finish(verifDir string, meta Meta, extra map[string]interface{}) i
 	}
 	sort.Strings(rules)
 	for _, r := range rules {
-		if counts[r] < c.Floors[r] {
-			c.Add(r, "floor", Violated, "", fmt.Sprintf("reason=below-floor: rule matched %d constructs, at least %d were confirmed by hand on the reference tree — the rule's anchors no longer match the code", counts[r], c.Floors[r]), false)
+		// vacuity guard: the number of instances confirmed by hand on the reference tree may shrink when a
+		// maintainer merges duplicated code (three copies of a block become one helper), so the alarm
+		// threshold is 60 % of the confirmed count, not the count itself; an instance that really
+		// disappears is reported by the rule's own per-construct anchors
+		thr := (c.Floors[r]*6 + 9) / 10
+		if c.Floors[r] > 0 && thr < 1 {
+			thr = 1
+		}
+		if counts[r] < thr {
+			c.Add(r, "floor", Violated, "", fmt.Sprintf("reason=below-floor: rule matched %d constructs, %d were confirmed by hand on the reference tree (alarm threshold %d) — the rule's anchors no longer match the code", counts[r], c.Floors[r], thr), false)
 		}
 	}
 	sort.SliceStable(c.Obls, func(i, j int) bool {
